@@ -31,7 +31,7 @@ type variant struct {
 	placement [][]uint64
 	k         uint
 	failNode  uint64 // 0 = none; node whose SearchPartitions fails
-	failMode  string // "rpc" (call errors), "stream" (stream errors after the handler ran)
+	failMode  string // "rpc" (call errors), "down", "stream" (stream breaks after one item), "nodataset" (replica's catalogue lacks the dataset)
 	cancel    bool   // a second thread cancels the caller's context
 	maxQuick  int
 	unknown   uint64 // entry node has no address for this node (dial error)
@@ -54,7 +54,12 @@ func build(v variant) *explore.Scenario {
 			if v.unknown != 0 {
 				knows = func(a, b uint64) bool { return !(a == 1 && b == v.unknown) }
 			}
+			world.Lacks = nil
+			if v.failMode == "nodataset" {
+				world.Lacks = func(n uint64) bool { return n == v.failNode }
+			}
 			c := world.NewDatasetCluster(v.nodes, 1, pb.Space_Euclidean, v.placement, 2, knows)
+			world.Lacks = nil
 			x.OnCleanup(c.Close)
 			P := len(v.placement)
 			for p := 0; p < P; p++ {
@@ -105,6 +110,12 @@ func build(v variant) *explore.Scenario {
 					sort.Sort(all)
 					if int(r.K) < len(all) {
 						all = all[:r.K]
+					}
+					if v.failNode != 0 && v.failMode == "stream" && target == world.Addr(v.failNode) {
+						// the node dies mid-answer: one item arrives, then the stream reports an error
+						cn := fakes.CannedItems(all[:1])
+						cn.Err = fakes.ErrUnavailable
+						return true, cn, nil
 					}
 					return true, fakes.CannedItems(all), nil
 				}
@@ -235,6 +246,10 @@ func main() {
 		variant{name: "outer-P2-kall", mode: "outer", nodes: 2, placement: [][]uint64{{1}, {2}}, k: 10},
 		variant{name: "outer-P2-fail-rpc", mode: "outer", nodes: 2, placement: [][]uint64{{1}, {2}}, k: 3, failNode: 2, failMode: "rpc"},
 		variant{name: "outer-P2-fail-down", mode: "outer", nodes: 3, placement: [][]uint64{{2}, {3}}, k: 3, failNode: 3, failMode: "down"},
+		variant{name: "outer-P2-fail-stream", mode: "outer", nodes: 2, placement: [][]uint64{{1}, {2}}, k: 3, failNode: 2, failMode: "stream"},
+		variant{name: "outer-P3-fail-stream", mode: "outer", nodes: 3, placement: [][]uint64{{1}, {2}, {3}}, k: 4, failNode: 3, failMode: "stream", maxQuick: 1},
+		variant{name: "full-P2-replica-lacks-dataset", mode: "full", nodes: 2, placement: [][]uint64{{1}, {2}}, k: 3, failNode: 2, failMode: "nodataset"},
+		variant{name: "full-P2-R2-replica-lacks-dataset", mode: "full", nodes: 3, placement: [][]uint64{{1, 3}, {2, 3}}, k: 3, failNode: 3, failMode: "nodataset", maxQuick: 1},
 		variant{name: "outer-P2-unknown-address", mode: "outer", nodes: 2, placement: [][]uint64{{1}, {2}}, k: 3, unknown: 2},
 		variant{name: "outer-P2-cancel", mode: "outer", nodes: 2, placement: [][]uint64{{1}, {2}}, k: 3, cancel: true, maxQuick: 1},
 		variant{name: "full-P2-two-nodes", mode: "full", nodes: 2, placement: [][]uint64{{1}, {2}}, k: 3},
